@@ -157,6 +157,9 @@ class ExcelType:
         except (TypeError, ValueError):
             raise xlerrors.ValueExcelError(
                 f'Could not convert {repr(self.value)} to float.')
+        except OverflowError:
+            # An exact integer beyond the range of a double (10^308*10).
+            raise xlerrors.NumExcelError()
 
     def __str__(self):
         return str(self.value)
